@@ -19,8 +19,20 @@ SUBST = {}        # twin: how SITE substitutes values (C04/C16)
 LOCALNAMES = frozenset()
 G = 100
 
+GNONE = None  # a module global whose value is None
+
 class ERR(Exception):
     pass
+
+class NOEQ:
+    """A value whose comparison is neither free nor boolean (as numpy arrays): the program never compares it."""
+    __hash__ = None
+    def __init__(self, v):
+        self.v = v
+    def __eq__(self, other):
+        LOG.append(("noeq-compared",))
+        raise ERR("the truth value of a comparison with NOEQ is ambiguous")
+    __ne__ = __eq__
 
 class BERR(BaseException):
     pass
@@ -266,8 +278,32 @@ DRIVERS_THOROUGH = DRIVERS_QUICK + [
 ]
 
 
-def drive(gen, driver, w):
-    """Run a generator under a driver; returns the transcript (list of frozen events)."""
+def drive(gen, driver, w, split=None):
+    """Run a generator under a driver; returns the transcript (list of frozen events).
+
+    split = (index, action, other_context): `action()` runs just before driver operation `index`
+    (e.g. the probes are deactivated there); with other_context the operations from `index` on run
+    inside a copy of the current contextvars.Context (the generator changes context mid-way)."""
+    if split is not None:
+        at, action, other_context = split
+        head = _drive(gen, driver[:at], w, False) if at else ()
+        if head and head[-1][0] in ("stop", "raised", "dropped", "close-raised"):
+            if action is not None:
+                action()
+            return head
+        if action is not None:
+            action()
+        if other_context:
+            import contextvars
+
+            tail = contextvars.copy_context().run(_drive, gen, driver[at:], w, True)
+        else:
+            tail = _drive(gen, driver[at:], w, True)
+        return tuple(head) + tuple(tail)
+    return _drive(gen, driver, w, split is None)
+
+
+def _drive(gen, driver, w, finalise=True):
     tr = []
     ERR = w.ns["ERR"]
     for op in driver:
@@ -295,7 +331,7 @@ def drive(gen, driver, w):
         except BaseException as e:
             tr.append(("raised", type(e).__name__, _ADDR.sub("0x", str(e))))
             break
-    if gen is not None:
+    if gen is not None and finalise:
         # leave nothing suspended behind: finalise deterministically
         try:
             gen.close()
@@ -305,7 +341,7 @@ def drive(gen, driver, w):
     return tuple(tr)
 
 
-def run(w, fn, x, driver=None, flags=frozenset()):
+def run(w, fn, x, driver=None, flags=frozenset(), split=None):
     """Call fn in world w; returns the observation tuple."""
     w.reset()
     args = [x]
@@ -328,7 +364,7 @@ def run(w, fn, x, driver=None, flags=frozenset()):
         if isinstance(r, types.GeneratorType):
             if driver is None:
                 raise HarnessError("generator program without a driver")
-            res = ("gen", drive(r, driver, w))
+            res = ("gen", drive(r, driver, w, split))
             r = None
         else:
             res = ("ok", freeze(r))
